@@ -1,8 +1,52 @@
-/- line-protocol engine `ovl` (stub: answers bad-op until the engine is built) -/
+/- line-protocol engine `ovl`: overload resolution (C05).
+  ovl resolve <nargs> <arg types…> <cands…>     each candidate: `s`|`d`|`S` (static, dynamic, static with
+  short_circuit_overloads) then its id, then its spec as a func type `x:G:N:R …` (prefix notation of Driver.Ty)
+answers `ok <id>` | `ambiguous` | `nooverload`. -/
+import XrayModel.Overload
+import Driver.Ty
+open XrayModel
 namespace XrayDriver
+namespace OvlEng
+
+def parseCands : Nat → List String → Option (List Cand)
+  | 0, _ => none
+  | _, [] => some []
+  | fuel + 1, k :: id :: rest =>
+    match TyEng.parseTyFuel (rest.length + 1) rest with
+    | some (.func g ps n r, rest') =>
+      match parseCands fuel rest' with
+      | some cs =>
+        some ({ id := id.toNat!, kind := if k == "d" then .dynamic else .static,
+                spec := { gens := g, ps := ps, nreq := n, ret := r, shortCircuit := k == "S" } } :: cs)
+      | none => none
+    | _ => none
+  | _, _ => none
+
+def parseArgs : Nat → List String → Option (List Ty × List String)
+  | 0, rest => some ([], rest)
+  | n + 1, rest =>
+    match TyEng.parseTyFuel (rest.length + 1) rest with
+    | some (t, rest') =>
+      match parseArgs n rest' with
+      | some (ts, r) => some (t :: ts, r)
+      | none => none
+    | none => none
+
+end OvlEng
 
 def ovlEngine (f : String) (args : List String) : String :=
   match f, args with
+  | "resolve", n :: rest =>
+    match OvlEng.parseArgs n.toNat! rest with
+    | some (as, rest') =>
+      match OvlEng.parseCands (rest'.length + 1) rest' with
+      | some cs =>
+        match resolve cs as with
+        | .ok i => s!"ok {i}"
+        | .ambiguous _ _ => "ambiguous"
+        | .noOverload => "nooverload"
+      | none => "bad-op"
+    | none => "bad-op"
   | _, _ => "bad-op"
 
 end XrayDriver
